@@ -69,6 +69,18 @@ type IRtpUnpackerProtocol interface {
 //		  假如sps和pps是一个stapA包，则合并结果为一个AvPacket。
 type OnAvPacket func(pkt base.AvPacket)
 
+// rtpTimestamp2Ms converts an RTP timestamp to milliseconds at the given clock rate.
+//
+// The multiplication is done before the division and in 64 bits: dividing by `clockRate/1000` truncates
+// the divisor for rates that are not a multiple of 1000 (44100 Hz became 44 ticks per millisecond, a drift
+// of 2.3 ms per second) and is a division by zero for rates below 1000.
+func rtpTimestamp2Ms(timestamp uint32, clockRate int) int64 {
+	if clockRate <= 0 {
+		return int64(timestamp)
+	}
+	return int64(uint64(timestamp) * 1000 / uint64(clockRate))
+}
+
 // DefaultRtpUnpackerFactory 目前支持AVC，HEVC和AAC MPEG4-GENERIC，业务方也可以自己实现IRtpUnpackerProtocol，甚至是IRtpUnpackContainer
 func DefaultRtpUnpackerFactory(payloadType base.AvPacketPt, clockRate int, maxSize int, onAvPacket OnAvPacket) IRtpUnpacker {
 	nazalog.Debugf("DefaultRtpUnpackerFactory. type=%d, clockRate=%d, maxSize=%d", payloadType, clockRate, maxSize)
